@@ -196,7 +196,7 @@ def run(ctx):
             p["stmts"] = [tuple(s) for s in p["stmts"]]
     else:
         for i in range(nprog):
-            progs.append(spine.gen_program(rng))
+            progs.append(spine.gen_program(rng, disjunction=True))
     lines, qis = [], []
     for P in progs:
         line, qinst = spine.sem_line(P)
